@@ -185,7 +185,8 @@ def run_fuzz(prop, cell, seed):
     sd = cell_seed(seed, prop, cell["name"]) % (2 ** 31 - 2) + 1      # never 0 (0 = random)
     env = worker_env("nojit")
     cmd = [sys.executable, "-m", "vp.fuzz", cell["fuzz"], out, "-runs=%d" % cell["runs"],
-           "-seed=%d" % sd, "-max_len=512", "-len_control=0", "-artifact_prefix=" + d + "/"]
+           "-seed=%d" % sd, "-max_len=512", "-len_control=0", "-artifact_prefix=" + d + "/",
+           "-rss_limit_mb=8192"]
     r = subprocess.run(cmd, cwd=os.path.dirname(os.path.dirname(os.path.abspath(__file__))),
                        env=env, stdout=subprocess.PIPE, stderr=subprocess.STDOUT, text=True)
     stats = {"executed": 0, "nontrivial": 0, "samples": []}
